@@ -121,6 +121,13 @@ def unary_ops():
         ('mul-scalar', lambda t: t.mul(2.), lambda d: d * 2., ANY), ('div-scalar', lambda t: t.div(2.), lambda d: d / 2., ANY),
         ('imul', lambda t: t.clone().__imul__(2.), lambda d: d * 2., ANY), ('itruediv', lambda t: t.clone().__itruediv__(2.), lambda d: d / 2., ANY),
         ('to-float32', lambda t: t.to(torch.float32), lambda d: d.to(torch.float32), ANY),
+        # casts of values (and defaults) the target dtype cannot represent, followed by one more operation
+        ('to-long-then-mul', lambda t: t.add(0.7).to(torch.long).mul(2), lambda d: (d + 0.7).to(torch.long) * 2, finite),
+        ('to-long-then-eq', lambda t: t.add(0.7).to(torch.long).eq(1), lambda d: (d + 0.7).to(torch.long).eq(1), finite),
+        ('to-bool-then-to-double', lambda t: t.add(1.7).to(torch.bool).to(torch.float64), lambda d: (d + 1.7).to(torch.bool).to(torch.float64), finite),
+        ('to-float32-then-to-float64', lambda t: t.add(0.7).to(torch.float32).to(torch.float64).sub(0.5), lambda d: (d + 0.7).to(torch.float32).to(torch.float64) - 0.5, finite),
+        # history: in-place operations on the results of indexing ANOTHER tensor (same default and dtype) come first
+        ('getitem-after-inplace-on-other-results', lambda t: _probe_getitem(t), lambda d: d, finite),
         ('T', lambda t: t.T, lambda d: d.permute(*reversed(range(d.ndim))), ANY),
         ('t', lambda t: t.t(), lambda d: d.t() if d.ndim == 2 else d, ANY),
         ('transpose', lambda t: t.transpose(0, t.ndim - 1), lambda d: d.transpose(0, d.ndim - 1), ANY),
@@ -180,6 +187,23 @@ def _project_own(t):
     got = t.project(t.paxes, vaxes)
     want = project(t.to_dense(), t.paxes, vaxes, {})[0].clone()
     return torch.tensor(bool(got.shape == want.shape and torch.equal(got.isnan(), want.isnan()) and torch.equal(got.nan_to_num(nan=0.), want.nan_to_num(nan=0.))))
+
+
+def _probe_getitem(t):
+    import torch
+    other = t.clone()
+    idxs = list(itertools.product(*[range(n) for n in t.size()]))
+    for vis in idxs:
+        x = other[vis]
+        try:
+            x.neg_()
+            x.__imul__(3.)
+        except RuntimeError:
+            pass
+    if not idxs:
+        return t
+    vals = [t[vis] for vis in idxs]
+    return torch.stack([v.to_dense() for v in vals]).reshape(tuple(t.size()))
 
 
 def binary_ops():
